@@ -18,3 +18,4 @@ def run(ctx):
     S.r61_initialize_order(ctx, sc)
     S.r62_registries(ctx, sc)
     S.r63_reset_completeness(ctx, sc)
+    S.r64_config_containers(ctx, sc)
